@@ -28,55 +28,112 @@ theorem growTracks_len (tb : Int) (n : Nat) : ∀ f ts, n + 1 ≤ ts.length + f 
     · apply ih; simp; omega
     · omega
 
-theorem iter_wf {fa fb : St → St} (ha : ∀ s, s.WF → (fa s).WF) (hb : ∀ s, s.WF → (fb s).WF) :
-    ∀ n s, s.WF → (iter fa fb n s).WF := by
+theorem growTracks_ge (tb : Int) (n : Nat) : ∀ f ts, ts.length ≤ (growTracks tb n f ts).length := by
+  intro f
+  induction f with
+  | zero => intro ts; simp [growTracks]
+  | succ f ih =>
+    intro ts
+    simp only [growTracks]
+    split
+    · have := ih (ts ++ [newTrk tb ts.length]); simp at this; omega
+    · omega
+
+/-- invariant of a step: the current track exists and tracks never disappear -/
+def Step (s s' : St) : Prop := s'.WF ∧ s.tr.length ≤ s'.tr.length
+
+theorem step_setT (s : St) (t : Trk) (h : s.WF) : Step s (s.setT t) :=
+  ⟨setT_wf s t h, by simp [St.setT]⟩
+
+theorem Step.trans' {a b c : St} (h1 : Step a b) (h2 : Step b c) : Step a c :=
+  ⟨h2.1, Nat.le_trans h1.2 h2.2⟩
+
+theorem iter_step {fa fb : St → St} (ha : ∀ s, s.WF → Step s (fa s)) (hb : ∀ s, s.WF → Step s (fb s)) :
+    ∀ n s, s.WF → Step s (iter fa fb n s) := by
   intro n
   induction n using Nat.strongRecOn with
   | _ n ih =>
     intro s hs
     match n with
-    | 0 => exact hs
+    | 0 => exact ⟨hs, Nat.le_refl _⟩
     | 1 => exact ha s hs
-    | k+2 => exact ih (k+1) (by omega) _ (hb _ (ha _ hs))
+    | k+2 =>
+      have h1 := ha s hs
+      have h2 := hb _ h1.1
+      exact (h1.trans' h2).trans' (ih (k+1) (by omega) _ h2.1)
 
 mutual
-theorem sem_wf : ∀ (c : Cmd) (s : St), s.WF → (sem c s).WF
+theorem sem_step : ∀ (c : Cmd) (s : St), s.WF → Step s (sem c s)
   | .note semi acc nat len q v tm o, s, h => by
     simp only [sem]
     split
-    · exact setT_wf _ _ (setT_wf _ _ h)
-    · exact setT_wf _ _ (setT_wf _ _ h)
-  | .noteN no len q v tm, s, h => by simp only [sem]; exact setT_wf _ _ (setT_wf _ _ h)
-  | .rest _ _, s, h => by simp only [sem]; exact setT_wf _ _ h
-  | .setL _, s, h => by simp only [sem]; exact setT_wf _ _ h
-  | .setO _, s, h => by simp only [sem]; exact setT_wf _ _ h
-  | .octRel _, s, h => by simp only [sem]; exact setT_wf _ _ h
-  | .setV _, s, h => by simp only [sem]; exact setT_wf _ _ h
-  | .velRel _, s, h => by simp only [sem]; exact setT_wf _ _ h
-  | .setQ _, s, h => by simp only [sem]; exact setT_wf _ _ h
-  | .setT _, s, h => by simp only [sem]; exact setT_wf _ _ h
+    · exact ⟨setT_wf _ _ (setT_wf _ _ h), by simp [St.setT, noteOn]⟩
+    · exact ⟨setT_wf _ _ (setT_wf _ _ h), by simp [St.setT, noteOn]⟩
+  | .noteN no len q v tm, s, h => by
+    simp only [sem]; exact ⟨setT_wf _ _ (setT_wf _ _ h), by simp [St.setT, noteOn]⟩
+  | .rest _ _, s, h => by simp only [sem]; exact step_setT _ _ h
+  | .setL _, s, h => by simp only [sem]; exact step_setT _ _ h
+  | .setO _, s, h => by simp only [sem]; exact step_setT _ _ h
+  | .octRel _, s, h => by simp only [sem]; exact step_setT _ _ h
+  | .setV _, s, h => by simp only [sem]; exact step_setT _ _ h
+  | .velRel _, s, h => by simp only [sem]; exact step_setT _ _ h
+  | .setQ _, s, h => by simp only [sem]; exact step_setT _ _ h
+  | .setT _, s, h => by simp only [sem]; exact step_setT _ _ h
   | .loop n a _ b, s, h => by
     simp only [sem]
-    exact iter_wf (fun s hs => semL_wf a s hs) (fun s hs => semL_wf b s hs) n s h
-  | .sub body, s, h => by simp only [sem]; exact setT_wf _ _ (semL_wf body s h)
-  | .div body len, s, h => by simp only [sem]; exact setT_wf _ _ (semL_wf body _ (setT_wf _ _ h))
+    exact iter_step (fun s hs => semL_step a s hs) (fun s hs => semL_step b s hs) n s h
+  | .sub body, s, h => by
+    simp only [sem]
+    have hb := semL_step body s h
+    exact hb.trans' (step_setT _ _ hb.1)
+  | .div body len, s, h => by
+    simp only [sem]
+    have h1 := step_setT s { s.t with l := if countElems body > 0 then tdiv (lenOpt s.tb s.t.l len) (countElems body) else 0 } h
+    have h2 := semL_step body _ h1.1
+    exact (h1.trans' h2).trans' (step_setT _ _ h2.1)
   | .chord body len q v, s, h => by
     simp only [sem]
-    have hb := semL_wf body { s with harm := some (s.t.tp, []) } h
+    have hb : Step s (semL body { s with harm := some (s.t.tp, []) }) := semL_step body { s with harm := some (s.t.tp, []) } h
     split
     · exact hb
-    · exact setT_wf _ _ hb
+    · exact hb.trans' ⟨setT_wf _ _ hb.1, by simp [St.setT]⟩
   | .track n, s, h => by
-    simp only [sem, St.WF]
-    exact growTracks_len s.tb n (n + 1) s.tr (by omega)
-  | .channel _, s, h => by simp only [sem]; exact setT_wf _ _ h
-  | .voice _, s, h => by simpa [sem] using h
-  | .keyShift _, s, h => by simpa [sem, St.WF] using h
-  | .trackKey _, s, h => by simp only [sem]; exact setT_wf _ _ h
-  | .keyFlag _ _, s, h => by simpa [sem, St.WF] using h
-theorem semL_wf : ∀ (cs : List Cmd) (s : St), s.WF → (semL cs s).WF
-  | [], s, h => h
-  | c :: cs, s, h => by simp only [semL]; exact semL_wf cs _ (sem_wf c s h)
+    simp only [sem]
+    exact ⟨growTracks_len s.tb n (n + 1) s.tr (by omega), growTracks_ge s.tb n (n + 1) s.tr⟩
+  | .channel _, s, h => by simp only [sem]; exact step_setT _ _ h
+  | .voice _, s, h => by simp only [sem]; exact ⟨h, Nat.le_refl _⟩
+  | .keyShift _, s, h => by simp only [sem]; exact ⟨h, Nat.le_refl _⟩
+  | .trackKey _, s, h => by simp only [sem]; exact step_setT _ _ h
+  | .keyFlag _ _, s, h => by simp only [sem]; exact ⟨h, Nat.le_refl _⟩
+  | .trackSync, s, h => by
+    simp only [sem]
+    exact ⟨by simpa [St.WF] using h, by simp⟩
+  | .play parts, s, h => by
+    simp only [sem]
+    have hp := playParts_step parts 1 s.t.tp s.t.tp s h
+    refine ⟨?_, by simpa using hp.2⟩
+    have : s.cur < s.tr.length := h
+    simp only [St.WF, List.length_map]
+    exact Nat.lt_of_lt_of_le this hp.2
+theorem playParts_step : ∀ (ps : List (List Cmd)) (i : Nat) (start last : Int) (s : St), s.WF →
+    Step s (playParts ps i start last s).2
+  | [], _, _, _, s, h => ⟨h, Nat.le_refl _⟩
+  | p :: ps, i, start, last, s, h => by
+    simp only [playParts]
+    have h1 : Step s { s with tr := growTracks s.tb i (i + 1) s.tr, cur := i } :=
+      ⟨growTracks_len s.tb i (i + 1) s.tr (by omega), growTracks_ge s.tb i (i + 1) s.tr⟩
+    have h2 := step_setT _ { ({ s with tr := growTracks s.tb i (i + 1) s.tr, cur := i } : St).t with tp := start } h1.1
+    have h3 := semL_step p _ h2.1
+    exact ((h1.trans' h2).trans' h3).trans' (playParts_step ps (i + 1) start _ _ h3.1)
+theorem semL_step : ∀ (cs : List Cmd) (s : St), s.WF → Step s (semL cs s)
+  | [], s, h => ⟨h, Nat.le_refl _⟩
+  | c :: cs, s, h => by
+    simp only [semL]
+    have h1 := sem_step c s h
+    exact h1.trans' (semL_step cs _ h1.1)
 end
+
+theorem sem_wf (c : Cmd) (s : St) (h : s.WF) : (sem c s).WF := (sem_step c s h).1
+theorem semL_wf (cs : List Cmd) (s : St) (h : s.WF) : (semL cs s).WF := (semL_step cs s h).1
 
 end Sakura.Core
